@@ -312,6 +312,9 @@ class SpooledBytesIO(SpooledIOBase):
 
     def seek(self, pos, mode=0):
         self._checkClosed()
+        if mode == os.SEEK_SET and pos < 0:
+            # the same error in memory and on disk (a file raises OSError)
+            raise ValueError(f"negative seek value {pos}")
         return self.buffer.seek(pos, mode)
 
     def readline(self, length=None):
@@ -445,6 +448,8 @@ class SpooledStringIO(SpooledIOBase):
         self._checkClosed()
         # Seek to position from the start of the file
         if mode == os.SEEK_SET:
+            if pos < 0:
+                raise ValueError(f"Negative seek position {pos}")
             self.buffer.seek(0)
             self._traverse_codepoints(0, pos)
             self._tell = pos
